@@ -35,9 +35,13 @@ def notW (W m : Nat) : Nat := 2 ^ W - (m + 1)
     `static_cast<BitField>(max_val) << FirstBit` stored in a `BitField` -/
 def chanMask (W first num : Nat) : Nat := ((2 ^ num - 1) <<< first) % 2 ^ W
 
-/-- `channel_mask` of `packed_dynamic_channel_reference`: `static_cast<integer_t>(max_val) << _first_bit`
-    is computed in the promoted `integer_t` (32 bits for channels up to 32 bits), then stored in a `BitField` -/
-def dynMask (W first num : Nat) : Nat := (((2 ^ num - 1) <<< first) % 2 ^ promotedBits num) % 2 ^ W
+/-- `channel_mask` of `packed_dynamic_channel_reference`: `static_cast<BitField>(max_val) << _first_bit`
+    (since fix 69c04b8 shifted in `BitField`, like the compile-time reference) -/
+def dynMask (W first num : Nat) : Nat := ((2 ^ num - 1) <<< first) % 2 ^ W
+
+/-- the mask as it was computed before fix 69c04b8: `static_cast<integer_t>(max_val) << _first_bit`, i.e. in the
+    promoted `integer_t` (32 bits for channels up to 32 bits).  Kept only to document the fixed finding. -/
+def dynMaskPrefix (W first num : Nat) : Nat := (((2 ^ num - 1) <<< first) % 2 ^ promotedBits num) % 2 ^ W
 
 /-- `get()`: `integer_t((field & channel_mask) >> first)` -/
 def getWith (mask f first num : Nat) : Nat := ((f &&& mask) >>> first) % 2 ^ carrierBits num
@@ -55,8 +59,13 @@ def setFromRefF (W f first num other : Nat) : Nat :=
 
 /-- run-time first bit: `get` on the bytes read -/
 def getD (W f first num : Nat) : Nat := getWith (dynMask W first num) f first num
-/-- run-time first bit: `set_unsafe(value)`; `value << _first_bit` is computed in the promoted `integer_t` -/
-def setD (W f first num v : Nat) : Nat := setWith W (dynMask W first num) f ((v <<< first) % 2 ^ promotedBits num)
+/-- run-time first bit: `set_unsafe(value)`; `static_cast<BitField>(value) << _first_bit` -/
+def setD (W f first num v : Nat) : Nat := setWith W (dynMask W first num) f (v <<< first)
+
+/-- `get` / `set_unsafe` of the run-time first-bit reference before fix 69c04b8 (documentation of the fixed finding) -/
+def getDPrefix (W f first num : Nat) : Nat := getWith (dynMaskPrefix W first num) f first num
+def setDPrefix (W f first num v : Nat) : Nat :=
+  setWith W (dynMaskPrefix W first num) f ((v <<< first) % 2 ^ promotedBits num)
 
 /-- `packed_channel_value<num>(v)`: `v & sig_bits_fast` after conversion to `integer_t` -/
 def valueMask (num : Nat) (v : Int) : Nat := ((v % 2 ^ carrierBits num).toNat) &&& (2 ^ num - 1)
@@ -215,14 +224,13 @@ def WroteExactly (M M' lo num v : Nat) : Prop :=
 
 /-- preconditions of the statements about a bit-aligned pixel reference at cursor `c`: a valid cursor, a bit
     field wide enough for the pixel at any bit offset (what `bit_aligned_image_type` chooses:
-    `bit_size + 7` bits), channel widths whose shifted value fits the promoted `integer_t` -/
+    `bit_size + 7` bits), channel widths of at most 64 bits -/
 structure RefOK (fb : Nat) (c : Cur) (widths : List Nat) : Prop where
   byte : 0 ≤ c.byte
   off0 : 0 ≤ c.off
   off7 : c.off < 8
   field : bitSize widths + 7 ≤ 8 * fb
-  small : bitSize widths < 2147483640
-  w25 : ∀ k, width widths k ≤ 25
+  w64 : ∀ k, width widths k ≤ 64
 
 /-- Spec of proxy arithmetic: the mathematical result, to be taken modulo `2^num` -/
 def arithSpec (op : Arith) (old : Nat) (v : Int) : Int :=
